@@ -11,9 +11,9 @@ Stage 3  K-complete enumeration on the implementation: representative formats x 
 import os, re, subprocess, collections, time
 
 from .. import c15lib as L
-from ..core import Violation, VERIF
+from ..core import Violation, VERIF, modules_for
 
-MODULES = ["SfProps.C15"]
+MODULES = modules_for("C15")
 
 
 # ---- known-finding classes (decidable on the script + iolog trace), see known_findings.jsonl ------------------------------
